@@ -234,6 +234,58 @@ fn c15_s1_typedec_across() {
     std::mem::forget(second);
 }
 
+/// S1d: the same bookkeeping in the REAL collect_proc_dec, with an EMPTY global table (every
+/// identifier is unresolved and emits nothing - the "broken text" half of the property): one token
+/// per procedure declaration, two consecutive declarations.
+/// Environment stub (randomness): HashMap's RandomState::new() reads the OS random source through a
+/// syscall Kani cannot execute; it is replaced by arbitrary (symbolic) keys.  The table stays empty.
+fn any_random_state() -> std::collections::hash_map::RandomState {
+    let keys: (u64, u64) = (kani::any(), kani::any());
+    unsafe { std::mem::transmute::<(u64, u64), std::collections::hash_map::RandomState>(keys) }
+}
+
+fn procdec_kind(k: u8) -> (TokenType, bool) {
+    match k % 5 {
+        0 => (TokenType::If, true),
+        1 => (TokenType::Int(IntResult::Int(1)), true),
+        2 => (TokenType::Comment(String::new()), true),
+        3 => (TokenType::Ident(String::new()), false), // unresolved identifier: emits nothing
+        _ => (TokenType::Semic, false),
+    }
+}
+
+#[kani::proof]
+#[kani::unwind(16)]
+#[kani::stub(std::collections::hash_map::RandomState::new, any_random_state)]
+fn c15_s1_procdec_across() {
+    let text = TEXT;
+    let k: [u8; 2] = kani::any();
+    let r: [usize; 4] = kani::any();
+    kani::assume(r[0] < r[1] && r[1] <= r[2] && r[2] < r[3] && r[3] <= text.len());
+    kani::assume(is_boundary(r[0], text) && is_boundary(r[1], text) && is_boundary(r[2], text) && is_boundary(r[3], text));
+    let (t0, c0) = procdec_kind(k[0]);
+    let (t1, c1) = procdec_kind(k[1]);
+    let toks = std::mem::ManuallyDrop::new([Token::new(t0, r[0]..r[1]), Token::new(t1, r[2]..r[3])]);
+    let mk = || std::mem::ManuallyDrop::new(ProcedureDeclaration {
+        doc: Vec::new(),
+        name: None,
+        parameters: Vec::new(),
+        variable_declarations: Vec::new(),
+        statements: Vec::new(),
+        info: AstInfo::new(0..1),
+    });
+    let (pd0, pd1) = (mk(), mk());
+    let table = std::mem::ManuallyDrop::new(GlobalTable { entries: std::collections::HashMap::new() });
+    kani::cover!(k[0] % 5 == 3 && c1, "unresolved identifier, then a classified token in the next procedure");
+    kani::cover!(k[0] % 5 == 4 && c1, "symbol, then a classified token in the next procedure");
+    let mut prev = Position { line: 0, character: 0 };
+    let first = collect_proc_dec(&pd0, &table, text, &toks[..], &mut prev);
+    let second = collect_proc_dec(&pd1, &table, text, &toks[1..], &mut prev);
+    check_stream(&first, &second, [c0, c1], r);
+    std::mem::forget(first);
+    std::mem::forget(second);
+}
+
 /// S3 for every token kind of the real TokenType (one token, ASCII text)
 #[kani::proof]
 #[kani::unwind(12)]
